@@ -1,5 +1,6 @@
 import GoImap.Props.C06
 #print axioms GoImap.C06.total_and_closed
+#print axioms GoImap.C06.no_fuel_event
 #print axioms GoImap.C06.buffered_literal_cap
 #print axioms GoImap.C06.append_cap
 #print axioms GoImap.C06.append_refused_unread
